@@ -771,6 +771,8 @@ class CategoricalDomain(object):
       return self.generate_quasi_random_points_in_domain(num_points)
     excluded_points = numpy.empty((0, self.dim)) if excluded_points is None else excluded_points
     excluded_points = self.remove_points_outside_domain(excluded_points)
+    if len(excluded_points):
+      excluded_points = numpy.unique(excluded_points, axis=0)
 
     discrete_elements = []
     for dc in self.domain_components:
